@@ -36,6 +36,21 @@ func (cl *Cluster) produceVariants(r *Req, req *sarama.ProduceRequest) []gx.Vari
 				}
 				vs = append(vs, cl.wrap(r, "Produce", name, func() { cl.doProduce(r, req, batches, f, i) }))
 			}
+		case strings.Contains(f, "~"):
+			// "x~y": a request that carries exactly two partitions is answered with fault x for one and fault y for the other
+			// (both ways round): one response, two different per-partition outcomes
+			xy := strings.SplitN(f, "~", 2)
+			if len(batches) == 2 && partitionFaults[xy[0]] && partitionFaults[xy[1]] {
+				for _, first := range []int{0, 1} {
+					first := first
+					name := fmt.Sprintf("%s@%d+%s@%d", xy[0], batches[first].Partition, xy[1], batches[1-first].Partition)
+					vs = append(vs, cl.wrap(r, "Produce", name, func() {
+						cl.pairFault = map[int]string{first: xy[0], 1 - first: xy[1]}
+						cl.doProduce(r, req, batches, f, -2)
+						cl.pairFault = nil
+					}))
+				}
+			}
 		case connFaults[f]:
 			vs = append(vs, cl.wrap(r, "Produce", f, func() { cl.doProduce(r, req, batches, f, -1) }))
 		default:
@@ -50,8 +65,11 @@ func (cl *Cluster) doProduce(r *Req, req *sarama.ProduceRequest, batches []saram
 	res := &sarama.ProduceResponse{Version: req.Version}
 	for i, b := range batches {
 		f := "ok"
-		if faultIdx == i || faultIdx < 0 {
+		if faultIdx == i || faultIdx == -1 {
 			f = fault
+		}
+		if faultIdx == -2 {
+			f = cl.pairFault[i]
 		}
 		v := Verdict{Topic: b.Topic, Partition: b.Partition, Base: -1, Answered: true}
 		doAppend := f == "ok" || f == "timeout-appended" || f == "drop-appended" || f == "missing" || f == "dupcode"
